@@ -23,8 +23,8 @@ func (c12) Rule() string {
 func (c12) Assumptions() []string {
 	return []string{"built-in post-processors interleave with the logging ones; only the relative order of the logging participants is judged"}
 }
-func (c12) directCount(tier string) int   { return tierN(tier, 20000, 1000000) }
-func (c12) startCount(tier string) int    { return tierN(tier, 1000, 30000) }
+func (c12) directCount(tier string) int   { return tierN(tier, 20000, 5000000) }
+func (c12) startCount(tier string) int    { return tierN(tier, 1000, 300000) }
 func (p c12) NumCases(tier string) int    { return p.directCount(tier) + p.startCount(tier) }
 func (c12) MinNontrivial(tier string) int { return tierN(tier, 500, 5000) }
 
